@@ -6,7 +6,7 @@
 //
 // stdout: one line per finding
 //
-//	FINDING kind=<panic|deadlock> object=<name> detail=<one line>
+//	FINDING kind=<panic|deadlock|snapshot-changed> object=<name> detail=<one line>
 //
 // and one `RUN object=… procs=… seed=… ops=… secs=…` line per workload. Data races are reported
 // by the race runtime on stderr (GORACE="halt_on_error=0"); the harness parses those blocks.
@@ -45,6 +45,7 @@ var workloads = []workload{
 	{"packet.Tracer", tracerWorkload},
 	{"runtime.Agent", agentWorkload},
 	{"types.Map", mapWorkload},
+	{"types.MapColliding", collideWorkload},
 	{"types.Codec", codecWorkload},
 	{"encoding.Group", groupWorkload},
 }
